@@ -78,8 +78,11 @@ def parseObs (ot : List String) (k : String) : Option ConnObs := do
   let cls := (kv ot s!"{k}.cls").getD "-"
   let alert := (kv ot s!"{k}.alert").getD "-"
   let cli := (kv ot s!"{k}.cli").getD "-"
+  -- a CertificateRequest can only be judged when the server's flight went out: the client
+  -- answered it (some handshake outcome other than "no mutual cipher suite")
+  let reqSeen : Option Bool := if cls == "suite" then none else some (req == "1")
   pure { o := { completed := srv == "done", resumed := resumed == "1", peerCerts := peers.toNat?.getD 0,
-                chains := chains.toNat?.getD 0 },
+                chains := chains.toNat?.getD 0, certReq := reqSeen },
          req := req, cls := cls, alert := alert, cli := cli, srv := srv }
 
 def b01 (b : Bool) : String := if b then "1" else "0"
